@@ -164,6 +164,44 @@ def check(spec, twin: bool = False, totality: bool = False, want_text: bool = Tr
             again = canonical_form(o)
             if len(again) != 1 or again[0] is not o:
                 return ('not-idempotent', i - 1, text)
+    if want_text:
+        r = derived_step(spec, prop, text)
+        if r is not None:
+            return r
+    return None
+
+
+def derived_step(spec, prop, text):
+    """history: after canonical_form(prop), a copy of prop with another scope / pattern must get ITS OWN canonical form"""
+    from hpl.rewrite import canonical_form
+    for change in ('scope', 'pattern'):
+        q = dict(spec)
+        if change == 'scope':
+            if spec['scope'] in ('until', 'after_until'):
+                continue
+            q['scope'] = 'until' if spec['scope'] == 'globally' else 'after_until'
+            q['terminator'] = ('ev', 'stopper', None, None)
+        else:
+            if spec['pattern'] not in ('absence', 'existence'):
+                continue
+            q['pattern'] = 'existence' if spec['pattern'] == 'absence' else 'absence'
+        if props.binding_verdict(q) is not None:
+            continue
+        want_q = props.build_property(q)
+        copy = prop.but(scope=want_q.scope) if change == 'scope' else prop.but(pattern=want_q.pattern)
+        try:
+            outs = canonical_form(copy)
+        except Exception as e:
+            return ('derived-exception', change, type(e).__name__, text)
+        exp = props.expected_canonical(q)
+        if len(outs) != len(exp):
+            return ('derived-wrong-count', change, len(outs), len(exp), text)
+        for o, e in zip(outs, exp):
+            if len(exp) == 1 and exp[0] is q:
+                if o is not copy:
+                    return ('derived-not-identity', change, text)
+            elif o != props.build_property(e):
+                return ('derived-wrong-output', change, str(o), text)
     return None
 
 
